@@ -24,6 +24,7 @@ type Cfg struct {
 	ParseLimit                 uint64 `json:",omitempty"`
 	Lang                       int    `json:",omitempty"`
 	Seed                       int64  `json:",omitempty"` // 0 = unseeded; else 16 seed bytes derived from it
+	Hooks                      bool   `json:",omitempty"` // every host extension point installed as an observer / identity
 }
 
 func AllOn() Cfg { return Cfg{WoD: true, CoC: true, Fate: true, DC: true} }
@@ -57,6 +58,7 @@ func (c Cfg) String() string {
 	if c.Seed != 0 {
 		p = append(p, fmt.Sprintf("seed=%d", c.Seed))
 	}
+	add(c.Hooks, "hooks")
 	return strings.Join(p, ",")
 }
 
@@ -97,7 +99,36 @@ func NewVM(c Cfg) *ds.Context {
 	}
 	vm.Init()
 	c.Apply(vm)
+	if c.Hooks {
+		InstallNoopHooks(vm)
+	}
 	return vm
+}
+
+// InstallNoopHooks installs every host extension point in the form a well-behaved host would: observers that read
+// what they are given (as a host does) and identity transformers. None of them acts.
+func InstallNoopHooks(vm *ds.Context) {
+	vm.Config.HookValueLoadPre = func(ctx *ds.Context, name string) (string, *ds.VMValue) { return name, nil }
+	vm.Config.HookValueLoadPost = func(ctx *ds.Context, name string, curVal *ds.VMValue, doCompute func(curVal *ds.VMValue) *ds.VMValue, detail *ds.BufferSpan) *ds.VMValue {
+		return doCompute(curVal)
+	}
+	vm.Config.HookValueStore = func(ctx *ds.Context, name string, v *ds.VMValue) (*ds.VMValue, bool) { return nil, false }
+	vm.Config.CustomDetailSpanRewriteFunc = func(ctx *ds.Context, defaultDetail string, span ds.BufferSpan, isRoot bool, data []byte, off int) string {
+		return defaultDetail
+	}
+	vm.Config.CustomDetailRewriteFunc = func(ctx *ds.Context, curDetail string, span ds.BufferSpan, data []byte, off int) string {
+		return curDetail
+	}
+	vm.Config.CallbackSt = func(_type string, name string, val *ds.VMValue, extra *ds.VMValue, op string, detail string) {
+		_ = val.ToString() // a host reads the value it is told about; extra is documented as optional
+		if extra != nil {
+			_ = extra.ToString()
+		}
+	}
+	vm.GlobalValueLoadFunc = func(name string) *ds.VMValue { return nil }
+	vm.GlobalValueLoadOverwriteFunc = func(name string, curVal *ds.VMValue) *ds.VMValue { return curVal }
+	store := map[string]*ds.VMValue{}
+	vm.GlobalValueStoreFunc = func(name string, v *ds.VMValue) { store[name] = v }
 }
 
 // Obs is what one evaluation showed.
